@@ -21,6 +21,8 @@ use std::process::{Command, Stdio};
 pub const RULE: &str = "Scenario g is drawn from seed mix(VERIF_SEED, g): a source class (generated program that builds or fails at a chosen stage, with/without EEPROM data; empty; comments only; EEPROM only; missing source; a shipped part file through the installed standard include directory; a local include; flash image crossing one or more 64 KiB boundaries) x a source path form (bare, ./, sub-directory with cwd elsewhere, absolute; stems with several dots, no extension, a space, non-ASCII) x options (-o/-e relative, absolute, other directory, long and = forms, -v) x pre-existing files (longer stale outputs at the default and -o/-e paths, unrelated neighbours) x output locations (normal, missing directory, a directory, /dev/full). A fault-free profile run of the binary gives the sequence of libc calls it makes on sources, includes, outputs and stdout; faulted configurations place one fault (quick: one or two, seeded; thorough: additionally every call x every applicable fault kind for a share of the scenarios) inside that sequence, or set RLIMIT_FSIZE = n, or close stdout / point it at /dev/full. Non-trivial: a fault fired or a real output-location failure happened, or (fault-free) the run wrote at least one output or failed a build; distinct by (source class, option set, pre-state, fired-rule list, exit status).";
 
 pub const ASSUMPTIONS: &[&str] = &[
+    "for an empty image a stale file removed from its own output path is as right as no file; when -o names the default EEPROM path of a source without EEPROM data the path is judged as the flash output (both images non-empty on one path: not judged)",
+    "a configuration knob the tool reads from the environment (a name outside HOME, XDG_*, RUST*, TMP*, PATH, LANG, LC_*, TERM, LD_* ...) is set to menu values in an extra run and judged like a benign fault: outputs exactly right, or a visible failure; a lying input size (size-lie) likewise",
     "the reference is the tree's own library (build_file with the standard include directory), as the property defines the expected images",
     "the independent HEX reader (hexread.rs) decides what a file decodes to",
     "lenient readings where the statement is silent: an empty image may be skipped or written as an empty file; exit status on success is recorded, not demanded; after a failed write a partial file may remain at the faulted path",
